@@ -241,6 +241,12 @@ func (g *ground) concretise(a abstractBlock, rng *rand.Rand, tag string) (*types
 			v.BlockID = other
 		case "signedByOther":
 			signer = j
+		case "nilSignedByOther": // a vote that does not count, labelled i, signed by another validator
+			v.BlockID = types.BlockID{}
+			signer = j
+		case "otherBlockSignedByOther":
+			v.BlockID = other
+			signer = j
 		case "duplicateOfOther":
 			v.ValidatorIndex, v.ValidatorAddress = j, append([]byte(nil), g.addrs[j]...)
 			signer = j
@@ -253,7 +259,13 @@ func (g *ground) concretise(a abstractBlock, rng *rand.Rand, tag string) (*types
 			default:
 				v.ValidatorIndex, v.ValidatorAddress = g.n+3, randBytes(20, rng)
 			}
-		case "badSig":
+		case "badSig", "nilBadSig", "otherBlockBadSig":
+			// nilBadSig / otherBlockBadSig: a forged vote that does not count for the block anyway
+			if class == "nilBadSig" {
+				v.BlockID = types.BlockID{}
+			} else if class == "otherBlockBadSig" {
+				v.BlockID = other
+			}
 			switch pick(6) {
 			case 0: // the validator's genuine signature over another chain id
 				v.Signature = g.sign(i, g.chainID+"x", v)
@@ -265,7 +277,7 @@ func (g *ground) concretise(a abstractBlock, rng *rand.Rand, tag string) (*types
 				case 1:
 					w.Round++
 				default:
-					w.BlockID = otherBlockID(lastID, rng)
+					w.BlockID = otherBlockID(v.BlockID, rng) // never the id this vote carries
 				}
 				v.Signature = g.sign(i, g.chainID, w)
 			case 2: // one bit flipped
